@@ -726,6 +726,16 @@ def r32_order_agree(ctx):
                   "case was handled the remaining differences must be "
                   "self - other" % bad, ("C04",))
     # year-range orientation
+    if not any(isinstance(n, ast.If) and isinstance(n.test, ast.Compare)
+               and len(n.test.ops) == 1 and isinstance(
+                   n.test.ops[0], (ast.Gt, ast.Lt)) and n.orelse and
+               "year" in U(n.test) for n in walk_no_nested(f.node)):
+        rep.undecided(rule, ctx.fkey(f, None, "year-range"), f.loc(),
+                      "TimePoint.__sub__ does not count the whole years "
+                      "between its operands by the `if later > earlier: += "
+                      "range(earlier, later-1) else: -= ...` idiom this rule "
+                      "reads: the day count across years is not decided "
+                      "here", ("C04",))
     for n in walk_no_nested(f.node):
         if isinstance(n, ast.If) and isinstance(n.test, ast.Compare) and \
                 len(n.test.ops) == 1 and isinstance(
